@@ -316,7 +316,7 @@ func shrinkMatch(c *core.Ctx) {
 		switch {
 		case core.IsConstBool(v, true) && guardedBy(r, has("reflect.DeepEqual(back1, back2)"), true):
 			okEq = true
-		case core.IsConstBool(v, false) && guardedBy(r, has("reflect.DeepEqual(&b1copy, back2)"), false):
+		case core.IsConstBool(v, false) && guardedBy(r, has("reflect.DeepEqual(&", ", back2)"), false):
 			okNe = true
 		case core.IsConstBool(v, false) && guardedBy(r, has("next(range(", "#2"), false):
 			okUnseen = true
@@ -439,7 +439,7 @@ func shortVal(v ssa.Value) string {
 	case *ssa.Field:
 		return shortVal(x.X) + ".field"
 	case *ssa.Parameter:
-		return x.Name()
+		return core.ParamName(x)
 	case *ssa.Lookup:
 		return "lookup " + core.Key(x.Index)
 	}
